@@ -1,5 +1,7 @@
 """Shared pieces for C04/C12/C18: lower bounds of integer terms (intervals with guard refinement) and loop progress."""
 import ast
+
+from ..linear import Lin
 from typing import Optional, Dict
 
 from .. import AnalysisError
@@ -93,6 +95,9 @@ def lower_bound(t, facts, param_values=None) -> Optional[int]:
                     val = 0 if not f[2] else None
             except Exception:
                 val = None
+    elif k == 'item' and t[1] in facts.get('bytes', ()) and not (isinstance(t[2], tuple) and t[2] and
+                                                                  t[2][0] == 'slice'):
+        val = 0  # one element of a bytes object is an int in 0..255
     elif k == 'param' and param_values and t[2] in param_values:
         val = min(param_values[t[2]])
     elif k == 'tuple':
@@ -125,6 +130,18 @@ def _inside(node, root):
         if n is node:
             return True
     return False
+
+
+def bytes_params(func):
+    """terms of the parameters of `func` annotated as a bytes-like type"""
+    import ast as _ast
+    out = set()
+    a = func.node.args
+    for x in a.posonlyargs + a.args + a.kwonlyargs:
+        if x.annotation is not None and _ast.unparse(x.annotation).split('.')[-1] in (
+                'bytes', 'bytearray', 'memoryview'):
+            out.add(('param', func.qualname, x.arg))
+    return out
 
 
 def lin_lower_bound(lin, atoms, facts, param_values=None) -> Optional[int]:
@@ -166,9 +183,56 @@ def while_progress(ctx, func, cls, loop_node, param_values=None, **opts):
             # continue while not (a < b) : measure a - b
             shrink = (a1 - b1) - (a2 - b2)
         facts = path_facts(p, back.seq)
+        facts['bytes'] = bytes_params(func)
         lb = lin_lower_bound(shrink, atoms, facts, param_values)
         if lb is None or lb < 1:
             desc = {a: fmt_term(t)[:70] for a, t in atoms.terms.items() if a in shrink.coef}
             return n, 'an iteration can leave the loop measure unchanged: it shrinks by %r with %s (lower bound %s) - ' \
                       'the loop does not terminate on such input' % (shrink, desc, lb)
+    return n, None
+
+
+def while_reads_to_the_end(ctx, func, cls, loop_node, **opts):
+    """The loop goes on exactly as long as unread input remains: on every iteration path its test is
+    `cursor < len(<the bytes parameter>)` as linear forms (a bound short of the end drops a trailing item, one beyond
+    reads past it).  Returns (n_paths, problem or None)."""
+    from ..layout import Atoms, to_lin
+    bps = bytes_params(func)
+    if not bps:
+        raise AnalysisError('%s has no parameter annotated as bytes' % func.short)
+    paths = ctx.paths(func, cls, **opts)
+    n = 0
+    for p in paths:
+        lc = loop_conds(p, loop_node)
+        if lc is None:
+            continue
+        first, second, enter, back = lc
+        k1 = strip_epoch(first.data['key'])
+        if k1[0] not in ('lt', 'le'):
+            raise AnalysisError('loop test at %s:%s is not an ordering comparison (%s)' % (
+                func.file, loop_node.lineno, fmt_term(k1)))
+        n += 1
+        atoms = Atoms()
+        a, b = to_lin(k1[1], atoms), to_lin(k1[2], atoms)
+        cont_when = first.data['value']
+        # normalise to: continue while cursor < end
+        if cont_when and k1[0] == 'lt':
+            cursor, end = a, b
+        elif cont_when and k1[0] == 'le':
+            cursor, end = a, b + Lin.k(1)
+        elif not cont_when and k1[0] == 'lt':
+            cursor, end = b, a + Lin.k(1)       # not (a < b)  <=>  b <= a  <=>  b < a + 1
+        else:
+            cursor, end = b, a                   # not (a <= b) <=>  b < a
+        len_atoms = [x for x, t in atoms.terms.items() if t[0] == 'pure' and t[1] == 'len' and
+                     len(t[3]) == 1 and strip_epoch(t[3][0]) in bps]
+        want = None
+        for x in len_atoms:
+            want = Lin.atom(x)
+        if want is None or end != want:
+            return n, 'the loop goes on while the cursor is below %r, not below the length of the input: %s' % (
+                end, 'input that ends in a short last item is not read to the end' if want is not None else
+                'the bound does not mention the length of the input')
+        if any(c != 1 for c in cursor.coef.values()) or cursor.const != 0 and not cursor.coef:
+            return n, 'the loop test compares %r, not the cursor, with the length of the input' % cursor
     return n, None
